@@ -6,6 +6,8 @@
                                               does each base name resolve to its class, is `dataclass` recognised by the visitor, are field /
                                               KW_ONLY / InitVar recognised at the event, is ClassVar recognised by the visitor (Model/C18_layout.v; whether expand_wildcards ran
                                               before the event is read off the translated order of _post_load)
+     (session_tv paths events final)          the same for loads in any order: each event comes with the table of its moment; per class object
+                                              members["__init__"], label, and Class.parameters looked up along the FINAL MRO
      (session classes paths events dc kp)     per class object: members["__init__"] and the label after the extension object has
                                               served the events in turn (state machine of Model/C18_machine.v) *)
 From Coq Require Import List Arith Bool ZArith String.
@@ -49,6 +51,7 @@ Definition dec_lstmt (s : sexp) : option lstmt :=
   | SList [SStr "from"; m; k] => do m' <- as_nat m; do k' <- as_nat k; Some (LFrom m' k')
   | SList [SStr "star"; m] => do m' <- as_nat m; Some (LStar m')
   | SList [SStr "class"; k] => do k' <- as_nat k; Some (LClass k')
+  | SList [SStr "classas"; k; n] => do k' <- as_nat k; do n' <- as_nat n; Some (LClassAs k' n')
   | _ => None end.
 Definition dec_lmod (s : sexp) : option lmod :=
   match s with
@@ -96,6 +99,26 @@ Definition run_C18 (s : sexp) : sexp :=
                                (* Expr.is_classvar is evaluated by the visitor: by last name, or by the one-hop canonical path *)
                                of_bool (classvar_by_last_name || recognised_h h_classvar false L m)]) queries)
       | _, _ => bad_input end
+  | SList [SStr "selfres"; ms; qs] =>
+      (* finding C18-F12: per query (module, class object, base name): does the base name resolve to the class itself *)
+      match as_list_of dec_lmod ms, as_list_of (as_list_of as_nat) qs with
+      | Some L, Some queries =>
+          SList (map (fun q => match q with
+                               | [m; k; n] => SList [of_bool (self_resolved expanded_at_event L m k n); of_bool (base_resolves expanded_at_event L m n)]
+                               | _ => bad_input end) queries)
+      | _, _ => bad_input end
+  | SList [SStr "session_tv"; ps; tes; fin] =>
+      (* loads in any order: (paths, [(classes as they stand at the event, classes walked)], classes after all loads) *)
+      match as_list_of as_nat ps,
+            as_list_of (fun te => match te with SList [cs; ev] => do t <- as_list_of dec_cls cs; do e <- as_list_of as_nat ev; Some (t, e) | _ => None end) tes,
+            as_list_of dec_cls fin with
+      | Some paths, Some evs, Some tfin =>
+          let st := session_tv current_mode paths evs in
+          SList (map (fun ic : nat * cls => let (i, c) := ic in
+                        SList [enc_member (s_member st i c); of_bool (s_labelled st i c);
+                               enc_presented (first_init (s_member_at st tfin) (i :: c_mro c))])
+                     (combine (seq 0 (List.length tfin)) tfin))
+      | _, _, _ => bad_input end
   | SList [SStr "session"; cs; ps; evs; dc; kp] =>
       match as_list_of dec_cls cs, as_list_of as_nat ps, as_list_of (as_list_of as_nat) evs, as_bool dc, as_bool kp with
       | Some t, Some paths, Some events, Some dc', Some kp' =>
